@@ -512,7 +512,6 @@ def yescryptR (D : Digests) (phrase setting : Bytes) (buflen : Nat) : Option Byt
 
 /-- `crypt_yescrypt_rn` (reached for `$y$` and, through `crypt_scrypt_rn`, for `$7$`) -/
 def cryptYescryptCore (D : Digests) (phrase setting : Bytes) : CRes :=
-  if Gen.CRYPT_OUTPUT_SIZE < setting.length + 1 + 43 + 1 then .error .ERANGE else
   match yescryptR D phrase setting Gen.CRYPT_OUTPUT_SIZE with
   | none => .error .EINVAL
   | some out => .ok out
@@ -534,7 +533,6 @@ def scryptVerifySalt (setting : Bytes) : Bool :=
   go (setting.length + 1) 14
 
 def cryptScrypt (D : Digests) (phrase setting : Bytes) : CRes :=
-  if Gen.CRYPT_OUTPUT_SIZE < setting.length + 1 + 43 + 1 then .error .ERANGE else
   if ¬ hasPrefix setting [36, 55, 36] ∨ ¬ scryptVerifySalt setting then .error .EINVAL else
   cryptYescryptCore D phrase setting
 
